@@ -17,11 +17,13 @@ import (
 	"fmt"
 	"io"
 	"os"
+	"path"
 	"runtime"
 	"runtime/debug"
 	"sort"
 	"strings"
 	"sync"
+	"sync/atomic"
 	"time"
 
 	"github.com/anz-bank/golden-retriever/retriever"
@@ -42,6 +44,7 @@ type Imp struct {
 	Ver  string `json:"ver,omitempty"` // version suffix on a full remote spelling (master/main/develop are all "the default")
 	Lay  []int  `json:"lay,omitempty"` // layout lines written before this import line, see layLine()
 	Suf  int    `json:"suf,omitempty"` // 1 trailing spaces, 2 trailing comment, 3 `~sysl` mode, 4 two spaces after `import`, 5 TAB after `import`
+	As   string `json:"as,omitempty"`  // `as <app name>` behind the path
 }
 type Spec struct {
 	Dirs   [][]string `json:"dirs"` // directory segments of file i
@@ -51,6 +54,28 @@ type Spec struct {
 	BsRoot bool       `json:"bsroot,omitempty"` // the root is named with backslashes (d\root.sysl); others import it with slashes
 	Tail   [][]int    `json:"tail,omitempty"`   // layout lines between the last import line and the first application, per file
 	CRLF   []bool     `json:"crlf,omitempty"`   // file i has CRLF line ends
+	Names  []string   `json:"names,omitempty"`  // base name of file i when it is not f<i> (several files may share one, in different directories)
+	RootAs int        `json:"rootas,omitempty"` // how Parse is given the root: 0 its path, 1 "./" + path, 2 path without the extension
+	NoCheck bool      `json:"nocheck,omitempty"` // Settings.NoDifferentVersionCheck
+}
+
+func (s *Spec) base(i int) string {
+	if i < len(s.Names) && s.Names[i] != "" {
+		return s.Names[i]
+	}
+	return baseName(i)
+}
+
+// resource: the spelling of the root handed to Parse
+func (s *Spec) resource() string {
+	p := s.path(0)
+	switch s.RootAs {
+	case 1:
+		return "./" + p
+	case 2:
+		return strings.TrimSuffix(p, ".sysl")
+	}
+	return p
 }
 
 // layLine: the lines the grammar allows inside the import section besides import statements
@@ -88,25 +113,26 @@ func baseName(i int) string {
 }
 func (s *Spec) path(i int) string {
 	if i == 0 && s.BsRoot {
-		return strings.Join(append(append([]string{}, s.Dirs[i]...), baseName(i)+".sysl"), "\\")
+		return strings.Join(append(append([]string{}, s.Dirs[i]...), s.base(i)+".sysl"), "\\")
 	}
-	p := strings.Join(append(append([]string{}, s.Dirs[i]...), baseName(i)+".sysl"), "/")
+	p := strings.Join(append(append([]string{}, s.Dirs[i]...), s.base(i)+".sysl"), "/")
 	if s.remote(i) {
 		return remoteRepo + "/" + p
 	}
 	return p
 }
 
-const nKinds = 6
+const nKinds = 10
 
 // spell: how file `from` writes its import of file `to`. Every kind resolves (filepath.Join in
 // EnterImport_stmt) to the same cleaned path, hence to the same canonical index.
 func (s *Spec) spell(from, to, kind int, ver string) string {
 	fd, tdir := s.Dirs[from], s.Dirs[to]
+	bn := s.base(to)
 	if s.remote(to) && (!s.remote(from) || kind == 5) {
 		// the full remote spelling, with or without extension and version
-		full := remoteRepo + "/" + strings.Join(append(append([]string{}, tdir...), baseName(to)), "/")
-		if kind%2 == 1 {
+		full := remoteRepo + "/" + strings.Join(append(append([]string{}, tdir...), bn), "/")
+		if kind%2 == 1 || strings.HasPrefix(bn, ".") {
 			full += ".sysl"
 		}
 		if ver != "" {
@@ -118,7 +144,12 @@ func (s *Spec) spell(from, to, kind int, ver string) string {
 		// filepath.Dir of a backslash name is ".": only rooted spellings reach the target
 		kind = 2 + kind%2
 	}
-	rooted := "/" + strings.Join(append(append([]string{}, tdir...), baseName(to)), "/")
+	// a base name that starts with a dot has an "extension" for filepath.Ext: it is always written in full
+	plain := bn
+	if strings.HasPrefix(bn, ".") {
+		plain = bn + ".sysl"
+	}
+	rooted := "/" + strings.Join(append(append([]string{}, tdir...), plain), "/")
 	// relative path from fd to tdir
 	k := 0
 	for k < len(fd) && k < len(tdir) && fd[k] == tdir[k] {
@@ -129,24 +160,45 @@ func (s *Spec) spell(from, to, kind int, ver string) string {
 		rel = append(rel, "..")
 	}
 	rel = append(rel, tdir[k:]...)
-	rel = append(rel, baseName(to))
+	rel = append(rel, plain)
 	relS := strings.Join(rel, "/")
+	ext := func(p string) string {
+		if strings.HasSuffix(p, ".sysl") {
+			return p
+		}
+		return p + ".sysl"
+	}
 	switch kind {
 	case 0:
 		return relS
 	case 1:
-		return relS + ".sysl"
+		return ext(relS)
 	case 2:
 		return rooted
 	case 3:
-		return rooted + ".sysl"
+		return ext(rooted)
 	case 4:
 		return "./" + relS
-	default: // a redundant detour through the target's own directory
+	case 5: // a redundant detour through the target's own directory
 		if len(tdir) > 0 {
-			return "/" + strings.Join(tdir, "/") + "/../" + strings.Join(tdir[len(tdir)-1:], "/") + "/./" + baseName(to) + ".sysl"
+			return "/" + strings.Join(tdir, "/") + "/../" + strings.Join(tdir[len(tdir)-1:], "/") + "/./" + ext(bn)
 		}
-		return "/./" + baseName(to)
+		return "/./" + plain
+	case 6: // relative, through the project (or repository) root
+		var up []string
+		for range fd {
+			up = append(up, "..")
+		}
+		return strings.Join(append(append(up, tdir...), plain), "/")
+	case 7:
+		return "././" + ext(relS)
+	case 8: // through a directory that need not exist
+		return "zz/../" + relS
+	default: // a doubled slash inside a rooted path
+		if len(tdir) > 0 {
+			return "/" + strings.Join(tdir, "/") + "//" + plain
+		}
+		return "/./" + ext(bn)
 	}
 }
 
@@ -169,7 +221,11 @@ func (s *Spec) content(i int) string {
 		case 5:
 			kw = "import\t"
 		}
-		sb.WriteString(kw + s.spell(i, im.To, im.Kind, im.Ver) + tail + "\n")
+		as := ""
+		if im.As != "" {
+			as = " as " + im.As
+		}
+		sb.WriteString(kw + s.spell(i, im.To, im.Kind, im.Ver) + as + tail + "\n")
 	}
 	if i < len(s.Tail) {
 		for _, k := range s.Tail[i] {
@@ -221,6 +277,8 @@ type gate struct {
 	waiting map[int]chan struct{}
 	order   []int // arrival order of the blocked reads
 	reads   []int // every ReadHashBranch call, by file, in completion order
+	asked   []string // ... the name each of them asked for
+	vers    []string // ... and the branch it was given back
 	unknown []string
 	delay   []time.Duration // free-running mode: no gate, a delay per file
 	free    bool
@@ -250,14 +308,14 @@ func (g *gate) ReadHashBranch(ctx context.Context, p string) ([]byte, retriever.
 		g.mu.Unlock()
 		time.Sleep(g.delay[i])
 		g.mu.Lock()
-		g.reads = append(g.reads, i)
+		g.logRead(i, p, branch)
 		g.mu.Unlock()
 		return []byte(g.content[i]), retriever.ZeroHash, branch, nil
 	}
 	ch := make(chan struct{})
 	if _, dup := g.waiting[i]; dup {
 		// a second read of a file whose first read is still blocked: let it through, it is logged
-		g.reads = append(g.reads, i)
+		g.logRead(i, p, branch)
 		g.mu.Unlock()
 		return []byte(g.content[i]), retriever.ZeroHash, branch, nil
 	}
@@ -266,22 +324,56 @@ func (g *gate) ReadHashBranch(ctx context.Context, p string) ([]byte, retriever.
 	g.mu.Unlock()
 	<-ch
 	g.mu.Lock()
-	g.reads = append(g.reads, i)
+	g.logRead(i, p, branch)
 	g.mu.Unlock()
 	return []byte(g.content[i]), retriever.ZeroHash, branch, nil
+}
+
+// fileOf: the file a NAME shown by the parser (operation summary, source context) stands for
+func (g *gate) fileOf(p string) (int, bool) {
+	if i, ok := g.byPath[p]; ok {
+		return i, true
+	}
+	if i, ok := g.find(p); ok {
+		return i, true
+	}
+	if strings.HasPrefix(p, "//") {
+		return 0, false
+	}
+	i, ok := g.byPath[path.Clean(p)]
+	return i, ok
+}
+
+func (g *gate) logRead(i int, p, branch string) {
+	g.reads = append(g.reads, i)
+	g.asked = append(g.asked, p)
+	g.vers = append(g.vers, branch)
 }
 
 // find: the file a path names; a remote path may carry a version suffix (the retriever's business, one
 // content per file here). Exact spelling otherwise: the parser must have resolved the import itself.
 func (g *gate) find(p string) (int, bool) {
+	if strings.HasPrefix(p, "//") {
+		if i, ok := g.byPath[p]; ok {
+			return i, true
+		}
+		if at := strings.IndexByte(p, '@'); at >= 0 {
+			i, ok := g.byPath[p[:at]]
+			return i, ok
+		}
+		return 0, false
+	}
+	// a bare host.tld/owner/repo/path is a remote resource for the real reader (remotefs.RemoteFs.IsRemote): it would
+	// be fetched from the network, never read from the project
+	if resourceRe.MatchString(p) {
+		return 0, false
+	}
 	if i, ok := g.byPath[p]; ok {
 		return i, true
 	}
-	if at := strings.IndexByte(p, '@'); at >= 0 && strings.HasPrefix(p, "//") {
-		i, ok := g.byPath[p[:at]]
-		return i, ok
-	}
-	return 0, false
+	// a local name is looked up as a file system would: "./x" and "x" are one file
+	i, ok := g.byPath[path.Clean(p)]
+	return i, ok
 }
 
 // settled: every goroutine of the collection is parked, either in our gate or in errgroup's Wait.
@@ -333,6 +425,9 @@ type Obs struct {
 	Trace   []Step   `json:"trace"`
 	Final   []int    `json:"final"` // processed-file order (operation summary), as file ids; -1 = a name that is no file
 	Reads   []int    `json:"reads"`
+	Asked   []string `json:"asked,omitempty"` // the name each read asked the reader for
+	Vers    []string `json:"vers,omitempty"`  // the branch each read was given back
+	Summary bool     `json:"summary"`         // an operation summary was printed
 	Apps    []string `json:"apps"`
 	Merge   []int    `json:"merge"` // files in the order their `Common` block was merged (source contexts)
 	Full    bool     `json:"full"` // the module was compiled (otherwise Parse stopped after flattening)
@@ -393,6 +488,7 @@ type Job struct {
 	Delays []int   `json:"delays,omitempty"`
 	Procs  int     `json:"procs,omitempty"`
 	Dl     int     `json:"deadline_s,omitempty"`
+	Hist   []HistStep `json:"hist,omitempty"`
 }
 
 func serve(line []byte) interface{} {
@@ -403,6 +499,12 @@ func serve(line []byte) interface{} {
 	if j.Mode == "free" {
 		return freerun(&j.Spec, j.Full, j.Delays, j.Procs)
 	}
+	if j.Mode == "hist" {
+		if j.Dl > 0 {
+			lockDeadline = time.Duration(j.Dl) * time.Second
+		}
+		return histrun(j.Hist)
+	}
 	if j.Dl > 0 {
 		lockDeadline = time.Duration(j.Dl) * time.Second
 	}
@@ -411,41 +513,39 @@ func serve(line []byte) interface{} {
 
 var lockDeadline = 10 * time.Second
 
-var worker *common.Worker
-
 // after a few crashes / hangs the remaining cases are skipped: the failures are recorded, and every
 // further case would only wait for its deadline
-var nBad int
+var nBad int32
 
 const maxBad = 4
 
-func runJob(j Job) Obs {
-	if nBad >= maxBad {
+func (r *runner) runJob(j Job) Obs {
+	if atomic.LoadInt32(&nBad) >= maxBad {
 		return Obs{Full: j.Full, Skipped: true}
 	}
-	o := callWorker(j, 40*time.Second)
+	o := callWorker(r.w, j, 40*time.Second)
 	if o.Hang {
 		// a hang is judged by a deadline: run the case once more in a fresh process with three times the
 		// time, and report it only if it does not return then either
-		worker.Close()
+		r.w.Close()
 		j.Dl = 30
-		o2 := callWorker(j, 100*time.Second)
+		o2 := callWorker(r.w, j, 100*time.Second)
 		if !o2.Hang {
-			hangsNotReproduced++
+			atomic.AddInt32(&hangsNotReproduced, 1)
 			o = o2
 		} else {
-			worker.Close()
+			r.w.Close()
 		}
 	}
 	if o.Hang || o.Crash != "" {
-		nBad++
+		atomic.AddInt32(&nBad, 1)
 	}
 	return o
 }
 
-var hangsNotReproduced int
+var hangsNotReproduced int32
 
-func callWorker(j Job, limit time.Duration) Obs {
+func callWorker(worker *common.Worker, j Job, limit time.Duration) Obs {
 	var o Obs
 	died, timedOut, stderr := worker.Call(j, &o, limit)
 	if died {
@@ -461,20 +561,26 @@ var stdoutMu sync.Mutex
 
 type parseOut struct {
 	apps  []string
-	merge []string
-	err   error
+	merge   []string
+	err     error
+	summary bool
 }
 
 func runParse(s *Spec, rd *gate, full bool) (parseOut, []string) {
 	p := parse.NewParser()
 	// NoParsing stops after collection + flattening (the only schedule-dependent stages); the module is
 	// compiled on the `full` runs
-	p.Set(parse.Settings{MaxImportDepth: s.Max, OperationSummary: true, NoParsing: !full})
+	p.Set(parse.Settings{MaxImportDepth: s.Max, OperationSummary: true, NoParsing: !full, NoDifferentVersionCheck: s.NoCheck})
+	return runParseOn(p, s, rd)
+}
+
+// runParseOn: one Parse on a parser value that the caller has configured (or not)
+func runParseOn(p *parse.Parser, s *Spec, rd *gate) (parseOut, []string) {
 	// the operation summary goes to os.Stdout
 	pr, pw, _ := os.Pipe()
 	old := os.Stdout
 	os.Stdout = pw
-	m, err := p.Parse(s.path(0), rd)
+	m, err := p.Parse(s.resource(), rd)
 	os.Stdout = old
 	pw.Close()
 	raw, _ := io.ReadAll(pr)
@@ -483,7 +589,7 @@ func runParse(s *Spec, rd *gate, full bool) (parseOut, []string) {
 		FilesProcessed []string `json:"filesProcessed"`
 	}
 	_ = json.Unmarshal(raw, &sum)
-	out := parseOut{err: err}
+	out := parseOut{err: err, summary: len(strings.TrimSpace(string(raw))) > 0}
 	if err == nil && m != nil {
 		for a := range m.Apps {
 			out.apps = append(out.apps, a)
@@ -518,7 +624,7 @@ func sortedKeys(m map[int]chan struct{}) []int {
 
 func (o *Obs) fill(s *Spec, rd *gate, po parseOut, files []string) {
 	for _, f := range files {
-		if i, ok := rd.find(f); ok {
+		if i, ok := rd.fileOf(f); ok {
 			o.Final = append(o.Final, i)
 		} else {
 			o.Final = append(o.Final, -1)
@@ -530,30 +636,42 @@ func (o *Obs) fill(s *Spec, rd *gate, po parseOut, files []string) {
 			o.Merge = append(o.Merge, 0)
 			continue
 		}
-		if i, ok := rd.find(f); ok {
+		if i, ok := rd.fileOf(f); ok {
 			o.Merge = append(o.Merge, i)
 		} else {
 			o.Merge = append(o.Merge, -1)
 		}
 	}
 	o.Apps = po.apps
+	o.Summary = po.summary
 	if po.err != nil {
 		o.Err = po.err.Error()
 	}
 	rd.mu.Lock()
 	o.Reads = append([]int{}, rd.reads...)
+	o.Asked = append([]string{}, rd.asked...)
+	o.Vers = append([]string{}, rd.vers...)
 	o.Unknown = append([]string{}, rd.unknown...)
 	rd.mu.Unlock()
 }
 
 // lockstep: choose(blocked in arrival order) picks the file to release next.
 func lockstep(s *Spec, full bool, choose func(blocked []int, step int) int) Obs {
+	return lockstepOn(nil, s, full, choose)
+}
+
+// lockstepOn: with p == nil a fresh parser configured from the spec, else one Parse on p as it stands
+func lockstepOn(p *parse.Parser, s *Spec, full bool, choose func(blocked []int, step int) int) Obs {
 	rd := newGate(s)
 	done := make(chan struct{})
 	var po parseOut
 	var files []string
 	go func() {
-		po, files = runParse(s, rd, full)
+		if p == nil {
+			po, files = runParse(s, rd, full)
+		} else {
+			po, files = runParseOn(p, s, rd)
+		}
 		close(done)
 	}()
 	o := Obs{Full: full}
@@ -735,13 +853,63 @@ type verdict struct {
 	multiDepth bool // some file has two different walk lengths below the limit
 	cuts       bool // the limit excludes at least one reachable file
 	shared     bool // some file is reached by more than one import (diamond, cycle, self or repeated import)
+	sure       bool // every file nearer than the limit is claimed under every schedule (see sureFiles)
+	conflict   string // some file of the closure is imported under two app names or two versions (no limit only): which
+	tagged     bool // some import line carries an app name or a version other than the default ones
+}
+
+// sureFiles: the files that are claimed whatever the completion order of the reads, under the limit max > 0.
+// The root is; an import k of a sure file f is, when f cannot be claimed at a depth that puts k at or beyond the
+// limit, i.e. when every walk to f that is shorter than max is shorter than max-1. (Theorem closure_depth_sure.)
+func sureFiles(g [][]int, ls []map[int]bool, max int) []bool {
+	n := len(g)
+	sure := make([]bool, n)
+	sure[0] = true
+	for changed := true; changed; {
+		changed = false
+		for f := 0; f < n; f++ {
+			if !sure[f] {
+				continue
+			}
+			ok := true
+			for d := range ls[f] {
+				if d < max && d+1 >= max {
+					ok = false
+				}
+			}
+			if !ok {
+				continue
+			}
+			for _, k := range g[f] {
+				if !sure[k] {
+					sure[k] = true
+					changed = true
+				}
+			}
+		}
+	}
+	return sure
 }
 
 func analyse(s *Spec) verdict {
 	g := s.graph()
 	n := len(g)
-	ls := walkLengths(g, 2*n+2)
+	bound := 2*n + 2
+	if s.Max+1 > bound {
+		bound = s.Max + 1
+	}
+	ls := walkLengths(g, bound)
 	var v verdict
+	v.conflict, v.tagged = conflictOf(s)
+	v.sure = true
+	if s.Max > 0 {
+		sf := sureFiles(g, ls, s.Max)
+		for f := 0; f < n; f++ {
+			if d := minLen(ls[f]); d >= 0 && d < s.Max && !sf[f] {
+				v.sure = false
+			}
+		}
+	}
 	v.spec = preorder(g, func(f int) bool {
 		d := minLen(ls[f])
 		return d >= 0 && (s.Max == 0 || d < s.Max)
@@ -845,6 +1013,7 @@ type Replay struct {
 	Procs    int    `json:"gomaxprocs,omitempty"`
 	Full     bool   `json:"full"`
 	Files    map[string]string `json:"files"` // for the reader of the replay: the literal file contents
+	Hist     []HistStep        `json:"hist,omitempty"` // mode hist: Set / Parse ... on one parser value
 }
 
 func mkReplay(s *Spec, mode string, rel []int, delays []int, procs int) Replay {
@@ -868,39 +1037,71 @@ func names(s *Spec, l []int) string {
 }
 
 // judge one observation; returns true when the result equals the specification
-func judge(c *common.Ctx, s *Spec, v verdict, o Obs, rp Replay) bool {
-	where := fmt.Sprintf("root %s, --max-import-depth %d, %s", s.path(0), s.Max, rp.Mode)
+func judge(c *rec, s *Spec, v verdict, o Obs, rp Replay) bool {
 	if o.Skipped {
 		c.Hist("skipped-after-crashes")
 		return true
 	}
-	if o.Crash != "" {
-		c.Fail("crash:"+o.Crash, "the process died while Parse was running ("+where+"): "+o.Crash, rp)
+	if f := judgeK(s, v, o, rp.Mode); f != nil {
+		c.Fail(f.key, f.what, rp)
 		return false
+	}
+	return true
+}
+
+type failure struct{ key, what string }
+
+// judgeK: the verdict on one observation as (key, what); nil = the result equals the specification
+func judgeK(s *Spec, v verdict, o Obs, mode string) *failure {
+	where := fmt.Sprintf("root %s, --max-import-depth %d, %s", s.resource(), s.Max, mode)
+	if o.Skipped {
+		return nil
+	}
+	if o.Crash != "" {
+		return &failure{"crash:" + o.Crash, "the process died while Parse was running (" + where + "): " + o.Crash}
 	}
 	if o.Hang {
-		c.Fail("hang", "Parse did not return within the deadline ("+where+")", rp)
-		return false
+		return &failure{"hang", "Parse did not return within the deadline (" + where + ")"}
 	}
 	if o.Early {
-		c.Fail("early-return", "Parse returned while a file read was still in flight ("+where+")", rp)
-		return false
-	}
-	if o.Err != "" {
-		c.Fail("unexpected-error", fmt.Sprintf("Parse failed on healthy files (%s): %s", where, strings.ReplaceAll(o.Err, "\n", " ")), rp)
-		return false
+		return &failure{"early-return", "Parse returned while a file read was still in flight (" + where + ")"}
 	}
 	if len(o.Unknown) > 0 {
-		c.Fail("wrong-path", fmt.Sprintf("the reader was asked for %q, which no import statement resolves to (%s)", o.Unknown, where), rp)
-		return false
+		return &failure{"wrong-path", fmt.Sprintf("the reader was asked for %q, which is no file of the project (or, for a bare host.tld/owner/repo/path, would be fetched from the network) (%s)", o.Unknown, where)}
 	}
-	cnt := map[int]int{}
-	for _, f := range o.Reads {
-		cnt[f]++
-		if cnt[f] == 2 {
-			c.Fail("double-read", fmt.Sprintf("%s was fetched twice (%s)", s.path(f), where), rp)
-			return false
+	if v.conflict != "" && s.Max == 0 && !s.NoCheck {
+		if o.Err == "" {
+			return &failure{"version-conflict:accepted", fmt.Sprintf("%s, yet Parse succeeded and processed %s (%s)", v.conflict, names(s, o.Final), where)}
 		}
+		if !strings.Contains(o.Err, "imported as different") {
+			return &failure{"unexpected-error", fmt.Sprintf("%s; Parse failed with another error (%s): %s", v.conflict, where, strings.ReplaceAll(o.Err, "\n", " "))}
+		}
+		// nothing is cancelled: every file of the closure was still fetched, once
+		cnt := map[int]int{}
+		for _, f := range o.Reads {
+			cnt[f]++
+			if cnt[f] == 2 {
+				return &failure{"double-read", fmt.Sprintf("%s was fetched twice (%s)", s.path(f), where)}
+			}
+		}
+		return nil
+	}
+	if o.Err != "" {
+		return &failure{"unexpected-error", fmt.Sprintf("Parse failed on healthy files (%s): %s", where, strings.ReplaceAll(o.Err, "\n", " "))}
+	}
+	if len(o.Unknown) > 0 {
+		return &failure{"wrong-path", fmt.Sprintf("the reader was asked for %q, which no import statement resolves to (%s)", o.Unknown, where)}
+	}
+	first := map[int]int{}
+	for k, f := range o.Reads {
+		if j, seen := first[f]; seen {
+			if k < len(o.Asked) && o.Asked[j] != o.Asked[k] {
+				// one file under two names: the claim is keyed by a spelling, not by the file
+				return &failure{"double-read:two-spellings", fmt.Sprintf("%s was fetched twice, as %q and as %q: two spellings of one file were claimed separately (%s)", s.path(f), o.Asked[j], o.Asked[k], where)}
+			}
+			return &failure{"double-read", fmt.Sprintf("%s was fetched twice (%s)", s.path(f), where)}
+		}
+		first[f] = k
 	}
 	// what was read is what was processed
 	rs := append([]int{}, o.Reads...)
@@ -908,11 +1109,10 @@ func judge(c *common.Ctx, s *Spec, v verdict, o Obs, rp Replay) bool {
 	sort.Ints(rs)
 	sort.Ints(fs)
 	if !eqInts(rs, fs) {
-		c.Fail("read-vs-processed", fmt.Sprintf("files fetched %s differ from files processed %s (%s)", names(s, rs), names(s, fs), where), rp)
-		return false
+		return &failure{"read-vs-processed", fmt.Sprintf("files fetched %s differ from files processed %s (%s)", names(s, rs), names(s, fs), where)}
 	}
 	if eqInts(o.Final, v.spec) && !o.Full {
-		return true
+		return nil
 	}
 	// the compiled module: one app per processed file + Common, merged in the processed order
 	want := []string{}
@@ -924,30 +1124,27 @@ func judge(c *common.Ctx, s *Spec, v verdict, o Obs, rp Replay) bool {
 	want = append(want, "Common")
 	sort.Strings(want)
 	if o.Full && strings.Join(want, ",") != strings.Join(o.Apps, ",") {
-		c.Fail("module-apps", fmt.Sprintf("compiled module has apps %v, the processed files define %v (%s)", o.Apps, want, where), rp)
-		return false
+		return &failure{"module-apps", fmt.Sprintf("compiled module has apps %v, the processed files define %v (%s)", o.Apps, want, where)}
 	}
 	if o.Full && !eqInts(o.Merge, o.Final) {
-		c.Fail("module-merge-order", fmt.Sprintf("files were merged in the order %s but listed as %s (%s)", names(s, o.Merge), names(s, o.Final), where), rp)
-		return false
+		return &failure{"module-merge-order", fmt.Sprintf("files were merged in the order %s but listed as %s (%s)", names(s, o.Merge), names(s, o.Final), where)}
 	}
 	if eqInts(o.Final, v.spec) {
-		return true
+		return nil
 	}
-	if s.Max > 0 && v.multiDepth {
+	if why := sameTextMissing(s, v, o.Final); why != "" {
+		return &failure{"same-text:target-missing", why + " (" + where + ")"}
+	}
+	if s.Max > 0 && v.multiDepth && !v.sure {
 		if why := partialOK(s, o.Final); why != "" {
-			c.Fail("depth-limit:"+why, fmt.Sprintf("processed %s; not even a depth-first prefix-closed part of the files nearer than the limit %s (%s)", names(s, o.Final), names(s, v.spec), where), rp)
-		} else {
-			c.Fail("depth-limit-schedule", fmt.Sprintf("processed %s where the files nearer than the limit are %s: a file first claimed through a longer path keeps that depth (%s)", names(s, o.Final), names(s, v.spec), where), rp)
+			return &failure{"depth-limit:" + why, fmt.Sprintf("processed %s; not even a depth-first prefix-closed part of the files nearer than the limit %s (%s)", names(s, o.Final), names(s, v.spec), where)}
 		}
-		return false
+		return &failure{"depth-limit-schedule", fmt.Sprintf("processed %s where the files nearer than the limit are %s: a file first claimed through a longer path keeps that depth (%s)", names(s, o.Final), names(s, v.spec), where)}
 	}
 	if g2, any := s.graphNoTab(); any && s.Max == 0 && eqInts(o.Final, preorder(g2, func(int) bool { return true })) {
-		c.Fail("import-tab-separator", fmt.Sprintf("processed %s, the closure is %s: an import statement written with a TAB after the keyword is accepted by the grammar but not followed (%s)", names(s, o.Final), names(s, v.spec), where), rp)
-		return false
+		return &failure{"import-tab-separator", fmt.Sprintf("processed %s, the closure is %s: an import statement written with a TAB after the keyword is accepted by the grammar but not followed (%s)", names(s, o.Final), names(s, v.spec), where)}
 	}
-	c.Fail("closure:"+classify(v.spec, o.Final), fmt.Sprintf("processed %s, the import closure in textual depth-first order is %s (%s)", names(s, o.Final), names(s, v.spec), where), rp)
-	return false
+	return &failure{"closure:" + classify(v.spec, o.Final), fmt.Sprintf("processed %s, the import closure in textual depth-first order is %s (%s)", names(s, o.Final), names(s, v.spec), where)}
 }
 
 // ---------------------------------------------------------------- generators
@@ -991,10 +1188,10 @@ func genRandom(r *common.Rng, maxN int) *Spec {
 			default:
 				to = r.Intn(n)
 			}
-			s.Imps[i] = append(s.Imps[i], Imp{to, kind(r), "", nil, 0})
+			s.Imps[i] = append(s.Imps[i], Imp{to, kind(r), "", nil, 0, ""})
 		}
 		if r.Chance(1, 10) && len(s.Imps[i]) > 0 { // the same file imported twice by one parent, spelled differently
-			s.Imps[i] = append(s.Imps[i], Imp{s.Imps[i][0].To, kind(r), "", nil, 0})
+			s.Imps[i] = append(s.Imps[i], Imp{s.Imps[i][0].To, kind(r), "", nil, 0, ""})
 		}
 	}
 	if r.Chance(1, 2) {
@@ -1082,7 +1279,7 @@ func genDiamond(r *common.Rng, variant int) *Spec {
 	for i := range s.Dirs {
 		s.Dirs[i] = []string{}
 	}
-	im := func(to int) Imp { return Imp{to, 0, "", nil, 0} }
+	im := func(to int) Imp { return Imp{to, 0, "", nil, 0, ""} }
 	if variant&1 == 0 {
 		s.Imps[0] = []Imp{im(1), im(2)}
 	} else {
@@ -1117,7 +1314,7 @@ func genUnequal(r *common.Rng) *Spec {
 		first = id
 		for j := 0; j < k; j++ {
 			if j > 0 {
-				s.Imps[id-1] = append(s.Imps[id-1], Imp{id, kind(r), "", nil, 0})
+				s.Imps[id-1] = append(s.Imps[id-1], Imp{id, kind(r), "", nil, 0, ""})
 			}
 			id++
 		}
@@ -1129,13 +1326,13 @@ func genUnequal(r *common.Rng) *Spec {
 	id++
 	tf, _ := chain(tail)
 	if r.Bool() {
-		s.Imps[0] = []Imp{{sf, kind(r), "", nil, 0}, {lf, kind(r), "", nil, 0}}
+		s.Imps[0] = []Imp{{sf, kind(r), "", nil, 0, ""}, {lf, kind(r), "", nil, 0, ""}}
 	} else {
-		s.Imps[0] = []Imp{{lf, kind(r), "", nil, 0}, {sf, kind(r), "", nil, 0}}
+		s.Imps[0] = []Imp{{lf, kind(r), "", nil, 0, ""}, {sf, kind(r), "", nil, 0, ""}}
 	}
-	s.Imps[sl] = append(s.Imps[sl], Imp{x, kind(r), "", nil, 0})
-	s.Imps[ll] = append(s.Imps[ll], Imp{x, kind(r), "", nil, 0})
-	s.Imps[x] = append(s.Imps[x], Imp{tf, kind(r), "", nil, 0})
+	s.Imps[sl] = append(s.Imps[sl], Imp{x, kind(r), "", nil, 0, ""})
+	s.Imps[ll] = append(s.Imps[ll], Imp{x, kind(r), "", nil, 0, ""})
+	s.Imps[x] = append(s.Imps[x], Imp{tf, kind(r), "", nil, 0, ""})
 	// x is at depth short+1 / long+1; the tail's first file at short+2
 	s.Max = long + 2 + r.Intn(tail)
 	if r.Chance(1, 4) {
@@ -1164,14 +1361,14 @@ func genLayered(r *common.Rng) *Spec {
 		for _, f := range lay[l] {
 			for _, k := range lay[l+1] {
 				if r.Chance(2, 3) {
-					s.Imps[f] = append(s.Imps[f], Imp{k, kind(r), "", nil, 0})
+					s.Imps[f] = append(s.Imps[f], Imp{k, kind(r), "", nil, 0, ""})
 				}
 			}
 		}
 		// every file of the next layer has at least one parent
 		for _, k := range lay[l+1] {
 			f := lay[l][r.Intn(len(lay[l]))]
-			s.Imps[f] = append(s.Imps[f], Imp{k, kind(r), "", nil, 0})
+			s.Imps[f] = append(s.Imps[f], Imp{k, kind(r), "", nil, 0, ""})
 		}
 	}
 	s.Max = r.Intn(layers + 2)
@@ -1185,7 +1382,7 @@ func genMask(n int, mask uint64, desc bool, max int) *Spec {
 		s.Dirs[i] = []string{}
 		for j := 0; j < n; j++ {
 			if mask&(1<<uint(i*n+j)) != 0 {
-				s.Imps[i] = append(s.Imps[i], Imp{j, 0, "", nil, 0})
+				s.Imps[i] = append(s.Imps[i], Imp{j, 0, "", nil, 0, ""})
 			}
 		}
 		if desc {
@@ -1232,15 +1429,117 @@ func gLock(s *Spec, o Obs) string {
 	}
 	return fmt.Sprintf("Lock %s %d%%nat 0 %s [%s] %s", gGraph(s), s.Max, gInts(o.B0), strings.Join(tr, ";"), gInts(o.Final))
 }
+func gTrace(o Obs) string {
+	tr := make([]string, len(o.Trace))
+	for i, st := range o.Trace {
+		tr[i] = fmt.Sprintf("(%d,%s)", st.Released, gInts(st.Blocked))
+	}
+	return "[" + strings.Join(tr, ";") + "]"
+}
+
+// the key of a file: its path from the project root (slashes), //host/org/repo/path for a remote file
+func (s *Spec) key(i int) string { return strings.ReplaceAll(s.path(i), "\\", "/") }
+
+func gNLock(s *Spec, o Obs) string {
+	files := make([]string, s.n())
+	for i := 0; i < s.n(); i++ {
+		var raws []string
+		for _, im := range s.Imps[i] {
+			raws = append(raws, common.GString(s.spell(i, im.To, im.Kind, im.Ver)))
+		}
+		files[i] = fmt.Sprintf("(%s,[%s])", common.GString(s.key(i)), strings.Join(raws, ";"))
+	}
+	asked := make([]string, len(o.Reads))
+	for i := range o.Reads {
+		asked[i] = fmt.Sprintf("(%d,%s,%s)", o.Reads[i], common.GString(o.Asked[i]), common.GString(o.Vers[i]))
+	}
+	return fmt.Sprintf("NLock [%s] %s %d%%nat %s %s %s [%s]", strings.Join(files, ";"), common.GString(s.resource()), s.Max,
+		gInts(o.B0), gTrace(o), gInts(o.Final), strings.Join(asked, ";"))
+}
+
+func gNErr(s *Spec, o Obs) string {
+	files := make([]string, s.n())
+	for i := 0; i < s.n(); i++ {
+		var raws []string
+		for _, im := range s.Imps[i] {
+			raws = append(raws, fmt.Sprintf("(%s,%s)", common.GString(s.spell(i, im.To, im.Kind, im.Ver)), common.GString(im.As)))
+		}
+		files[i] = fmt.Sprintf("(%s,[%s])", common.GString(s.key(i)), strings.Join(raws, ";"))
+	}
+	asked := make([]string, len(o.Reads))
+	for i := range o.Reads {
+		asked[i] = fmt.Sprintf("(%d,%s,%s)", o.Reads[i], common.GString(o.Asked[i]), common.GString(o.Vers[i]))
+	}
+	return fmt.Sprintf("NErr [%s] %s %s %s %s [%s] %s", strings.Join(files, ";"), common.GString(s.resource()), gBool(s.NoCheck),
+		gInts(o.B0), gTrace(o), strings.Join(asked, ";"), gBool(strings.Contains(o.Err, "imported as different")))
+}
+
 func gFree(s *Spec, o Obs) string {
 	return fmt.Sprintf("Free %s %d%%nat 0 %s", gGraph(s), s.Max, gInts(o.Final))
 }
 
 // ---------------------------------------------------------------- main
 
+// rec: what one input contributes to the result (failures, counts, histogram, Gallina cases), recorded while the
+// inputs run in parallel on several worker processes and written to the result in the order of the inputs
+type rec struct {
+	Rng *common.Rng
+	ops []func(c *common.Ctx, cs *common.Cases)
+}
+
+func (r *rec) Fail(key, what string, rp interface{}) {
+	r.ops = append(r.ops, func(c *common.Ctx, _ *common.Cases) { c.Fail(key, what, rp) })
+}
+func (r *rec) Count(key string, nt bool) {
+	r.ops = append(r.ops, func(c *common.Ctx, _ *common.Cases) { c.Count(key, nt) })
+}
+func (r *rec) Hist(k string) { r.ops = append(r.ops, func(c *common.Ctx, _ *common.Cases) { c.Hist(k) }) }
+func (r *rec) HistN(k string, n int) {
+	r.ops = append(r.ops, func(c *common.Ctx, _ *common.Cases) { c.HistN(k, n) })
+}
+func (r *rec) Sample(x interface{}) {
+	r.ops = append(r.ops, func(c *common.Ctx, _ *common.Cases) { c.Sample(x) })
+}
+func (r *rec) Add(term string, input interface{}) {
+	r.ops = append(r.ops, func(_ *common.Ctx, cs *common.Cases) { cs.Add(term, input) })
+}
+
 type runner struct {
-	c  *common.Ctx
-	cs *common.Cases
+	c     *rec
+	cs    *rec
+	w     *common.Worker
+	plain bool // cases without names (the exhaustive digraph stream: flat directory, one spelling)
+}
+
+// runAll: the inputs (each with its own random stream, forked in order) on `par` worker processes
+func runAll(c *common.Ctx, cs *common.Cases, tasks []func(r *runner), par int) {
+	recs := make([]*rec, len(tasks))
+	for i := range tasks {
+		recs[i] = &rec{Rng: c.Rng.Fork()}
+	}
+	var next int32 = -1
+	var wg sync.WaitGroup
+	for k := 0; k < par; k++ {
+		wg.Add(1)
+		go func() {
+			defer wg.Done()
+			w := common.NewWorker()
+			defer w.Close()
+			for {
+				i := int(atomic.AddInt32(&next, 1))
+				if i >= len(tasks) {
+					return
+				}
+				tasks[i](&runner{c: recs[i], cs: recs[i], w: w})
+			}
+		}()
+	}
+	wg.Wait()
+	for _, rc := range recs {
+		for _, op := range rc.ops {
+			op(c, cs)
+		}
+	}
 }
 
 func releasesOf(o Obs) []int {
@@ -1272,7 +1571,7 @@ func listChooser(rel []int) func([]int, int) int {
 }
 
 func (r *runner) lock(s *Spec, v verdict, full bool, ch Chooser, label string) (Obs, bool) {
-	o := runJob(Job{Spec: *s, Mode: "lock", Full: full, Ch: ch})
+	o := r.runJob(Job{Spec: *s, Mode: "lock", Full: full, Ch: ch})
 	if o.Skipped {
 		r.c.Hist("skipped-after-crashes")
 		return o, true
@@ -1282,8 +1581,18 @@ func (r *runner) lock(s *Spec, v verdict, full bool, ch Chooser, label string) (
 	ok := judge(r.c, s, v, o, rp)
 	r.c.Count(sig(s)+"|"+gInts(rel), v.shared || v.cuts)
 	r.c.Hist("lock:" + label)
-	if representable(o) {
+	if v.tagged && s.Max == 0 {
+		if !o.Hang && !o.Early && o.Crash == "" && !o.Skipped && len(o.Asked) == len(o.Reads) {
+			r.cs.Add(gNErr(s, o), rp)
+			r.c.Hist("coq:version-level-case")
+		} else {
+			r.c.Hist("not-sent-to-coq")
+		}
+	} else if representable(o) && r.plain {
 		r.cs.Add(gLock(s, o), rp)
+	} else if representable(o) && len(o.Asked) == len(o.Reads) {
+		r.cs.Add(gNLock(s, o), rp)
+		r.c.Hist("coq:name-level-case")
 	} else {
 		r.c.Hist("not-sent-to-coq")
 	}
@@ -1296,7 +1605,7 @@ func (r *runner) free(s *Spec, v verdict) (Obs, bool) {
 		delays[i] = r.c.Rng.Intn(4) * r.c.Rng.Intn(120)
 	}
 	procs := []int{1, 2, 4, 16}[r.c.Rng.Intn(4)]
-	o := runJob(Job{Spec: *s, Mode: "free", Full: true, Delays: delays, Procs: procs})
+	o := r.runJob(Job{Spec: *s, Mode: "free", Full: true, Delays: delays, Procs: procs})
 	if o.Skipped {
 		r.c.Hist("skipped-after-crashes")
 		return o, true
@@ -1306,7 +1615,7 @@ func (r *runner) free(s *Spec, v verdict) (Obs, bool) {
 	r.c.Count(sig(s)+"|free|"+gInts(delays)+fmt.Sprint(procs), v.shared || v.cuts)
 	r.c.Hist("free")
 	// the final order is schedule independent (by the theorems) without a limit or with every file at one depth
-	if representable(o) && (s.Max == 0 || !v.multiDepth) {
+	if representable(o) && !v.tagged && (s.Max == 0 || !v.multiDepth || v.sure) {
 		r.cs.Add(gFree(s, o), rp)
 	}
 	return o, ok
@@ -1328,6 +1637,37 @@ func (r *runner) histSpec(s *Spec, v verdict) {
 	}
 	if v.multiDepth {
 		c.Hist("graph:file-at-two-depths-under-limit")
+		if v.sure {
+			c.Hist("graph:file-at-two-depths-under-limit-but-every-file-sure")
+		}
+	}
+	if len(s.Names) > 0 {
+		c.Hist("names:shared-base-names")
+	}
+	if s.RootAs > 0 {
+		c.Hist(fmt.Sprintf("names:root-given-as:%d", s.RootAs))
+	}
+	if v.tagged {
+		c.Hist("versions:tagged-imports")
+		if v.conflict != "" {
+			c.Hist("versions:conflict")
+		}
+		if s.NoCheck {
+			c.Hist("versions:check-off")
+		}
+	}
+	if sameTextPairs(s) > 0 {
+		c.Hist("names:same-import-text-different-targets")
+	}
+	for i := range s.Dirs {
+		if looksRemoteLocal(s, i) {
+			c.Hist("names:local-file-with-url-like-path")
+		}
+		for _, d := range s.Dirs[i] {
+			if strings.HasPrefix(d, ".") {
+				c.Hist("names:dot-directory")
+			}
+		}
 	}
 	if s.BsRoot {
 		c.Hist("spelling:backslash-root")
@@ -1399,7 +1739,7 @@ func (r *runner) schedules(s *Spec, nRandom int) {
 		if i == 0 {
 			continue
 		}
-		if !eqInts(res, results[0]) && !(s.Max > 0 && v.multiDepth) {
+		if !eqInts(res, results[0]) && !(s.Max > 0 && v.multiDepth && !v.sure) {
 			r.c.Fail("schedule-dependent", fmt.Sprintf("two completion orders of the reads give %s and %s", names(s, results[0]), names(s, res)), mkReplay(s, "lock", nil, nil, 0))
 			break
 		}
@@ -1420,7 +1760,7 @@ func (r *runner) allSchedules(s *Spec, limit int) int {
 		if representable(o) {
 			if first == nil {
 				first = o.Final
-			} else if !eqInts(first, o.Final) && !(s.Max > 0 && v.multiDepth) {
+			} else if !eqInts(first, o.Final) && !(s.Max > 0 && v.multiDepth && !v.sure) {
 				r.c.Fail("schedule-dependent", fmt.Sprintf("two completion orders of the reads give %s and %s", names(s, first), names(s, o.Final)), mkReplay(s, "lock", releasesOf(o), nil, 0))
 			}
 		}
@@ -1452,8 +1792,6 @@ func main() {
 		common.ServeWorker(serve)
 		return
 	}
-	worker = common.NewWorker()
-	defer worker.Close()
 	c := common.Setup("C05")
 	defer c.Finish()
 	defer func() {
@@ -1462,13 +1800,17 @@ func main() {
 			c.Res.Notes = append(c.Res.Notes, fmt.Sprintf("%d run(s) exceeded the 10 s deadline once and completed normally when repeated with 30 s (machine load); they are judged on the repeated run", hangsNotReproduced))
 		}
 	}()
-	c.Res.Rule = "each case = (import graph with directories and import spellings, --max-import-depth, one completion order of the file reads driven through the real parse.Parser.Parse by a gate reader, or one free run with per-file read delays); distinct = distinct (input, release order); non-trivial = some file is reached by more than one import (diamond, cycle, self-import, repeated import) or the depth limit excludes a reachable file"
-	header := `From Coq Require Import List NArith Bool. Import ListNotations.
-Require Import Verif.Base.Harness Verif.Imports.Rules Verif.Imports.Collect Verif.Imports.Run Verif.Gen.ImportRules.
-Local Open Scope N_scope.`
-	footer := `Definition M := Eval vm_compute in mismatches (c05_ok current_rules) cases. Print M.`
-	r := &runner{c: c, cs: c.NewCases("C05", header, "c05_case", footer, 400)}
-	defer r.cs.Close()
+	c.Res.Rule = "each case = (import graph with directories, base names and import spellings, --max-import-depth, one completion order of the file reads driven through the real parse.Parser.Parse by a gate reader, or one free run with per-file read delays), or a history Set / Parse / Set / Parse ... on one parser value (each Parse driven in lock-step); distinct = distinct (input, release order); non-trivial = some file is reached by more than one import (diamond, cycle, self-import, repeated import) or the depth limit excludes a reachable file, for a history: the depth limit changes between two of its Parse calls"
+	header := `From Coq Require Import String List NArith Bool. Import ListNotations.
+Require Import Verif.Base.Harness Verif.Imports.Rules Verif.Imports.Collect Verif.Imports.Run Verif.Gen.ImportRules Verif.Gen.NameRules.
+Local Open Scope N_scope. Local Open Scope string_scope.
+Definition T := true. Definition F := false.`
+	footer := `Definition M := Eval vm_compute in mismatches (c05_ok_with current_rules current_name_rules) cases. Print M.`
+	cases := c.NewCases("C05", header, "c05_case", footer, 160)
+	defer cases.Close()
+	var tasks []func(r *runner)
+	add := func(f func(r *runner)) { tasks = append(tasks, f) }
+	all := func(s *Spec, limit int) { add(func(r *runner) { r.allSchedules(s, limit) }) }
 
 	if c.Replay != "" {
 		var rp Replay
@@ -1479,17 +1821,28 @@ Local Open Scope N_scope.`
 		s := &rp.Spec
 		v := analyse(s)
 		var o Obs
-		if rp.Mode == "free" {
-			o = runJob(Job{Spec: *s, Mode: "free", Full: true, Delays: rp.Delays, Procs: rp.Procs})
-			judge(c, s, v, o, rp)
-		} else if rp.Releases == nil {
-			r.schedules(s, 6)
+		add(func(r *runner) {
+			switch {
+			case rp.Mode == "hist":
+				r.history(rp.Hist, "replay")
+			case rp.Mode == "free":
+				o = r.runJob(Job{Spec: *s, Mode: "free", Full: true, Delays: rp.Delays, Procs: rp.Procs})
+				judge(r.c, s, v, o, rp)
+				r.c.Count(sig(s), true)
+			case rp.Releases == nil:
+				r.schedules(s, 6)
+			default:
+				o = r.runJob(Job{Spec: *s, Mode: "lock", Full: true, Ch: Chooser{Kind: "list", List: rp.Releases}})
+				judge(r.c, s, v, o, rp)
+				r.c.Count(sig(s), true)
+			}
+		})
+		runAll(c, cases, tasks, 1)
+		if rp.Mode == "hist" {
+			fmt.Printf("replay: history of %d Parse calls on one parser\n  failures=%d\n", len(rp.Hist), len(c.Res.Failures))
 		} else {
-			o = runJob(Job{Spec: *s, Mode: "lock", Full: true, Ch: Chooser{Kind: "list", List: rp.Releases}})
-			judge(c, s, v, o, rp)
+			fmt.Printf("replay: files=%d max=%d mode=%s releases=%v\n  processed=%s\n  closure  =%s\n  failures=%d\n", s.n(), s.Max, rp.Mode, rp.Releases, names(s, o.Final), names(s, v.spec), len(c.Res.Failures))
 		}
-		c.Count(sig(s), true)
-		fmt.Printf("replay: files=%d max=%d mode=%s releases=%v\n  processed=%s\n  closure  =%s\n  failures=%d\n", s.n(), s.Max, rp.Mode, rp.Releases, names(s, o.Final), names(s, v.spec), len(c.Res.Failures))
 		for _, f := range c.Res.Failures {
 			fmt.Println("  " + f.Key + ": " + f.What)
 		}
@@ -1498,41 +1851,96 @@ Local Open Scope N_scope.`
 
 	// 0. the regression corpus: the depth-limit witness of the design round, and small hand shapes
 	witness := &Spec{Dirs: [][]string{{}, {}, {}, {}, {}, {}}, Max: 4,
-		Imps: [][]Imp{{{1, 0, "", nil, 0}, {2, 0, "", nil, 0}}, {{4, 0, "", nil, 0}}, {{3, 0, "", nil, 0}}, {{4, 0, "", nil, 0}}, {{5, 0, "", nil, 0}}, {}}}
-	r.allSchedules(witness, 200)
+		Imps: [][]Imp{{{1, 0, "", nil, 0, ""}, {2, 0, "", nil, 0, ""}}, {{4, 0, "", nil, 0, ""}}, {{3, 0, "", nil, 0, ""}}, {{4, 0, "", nil, 0, ""}}, {{5, 0, "", nil, 0, ""}}, {}}}
+	all(witness, 200)
 	wu := *witness
 	wu.Max = 0
-	r.allSchedules(&wu, 200)
+	all(&wu, 200)
+	// the same graph under the limit 5: the shared file lies at two depths, yet every file is sure (DepthProps.witness_sure_at_5)
+	w5 := *witness
+	w5.Max = 5
+	all(&w5, 200)
 	// remote-style versioned spellings of one file, and a backslash-named root that is imported back
 	remoteDiamond := &Spec{Dirs: [][]string{{}, {}, {"d"}, {"k"}}, Remote: []bool{false, false, true, true},
-		Imps: [][]Imp{{{1, 0, "", nil, 0}, {2, 0, "master", nil, 0}, {2, 1, "", nil, 0}}, {{2, 1, "main", nil, 0}, {3, 0, "develop", nil, 0}}, {{3, 0, "", nil, 0}, {2, 2, "", nil, 0}}, {{2, 3, "", nil, 0}, {3, 5, "master", nil, 0}}}}
-	r.allSchedules(remoteDiamond, 200)
+		Imps: [][]Imp{{{1, 0, "", nil, 0, ""}, {2, 0, "master", nil, 0, ""}, {2, 1, "", nil, 0, ""}}, {{2, 1, "main", nil, 0, ""}, {3, 0, "develop", nil, 0, ""}}, {{3, 0, "", nil, 0, ""}, {2, 2, "", nil, 0, ""}}, {{2, 3, "", nil, 0, ""}, {3, 5, "master", nil, 0, ""}}}}
+	all(remoteDiamond, 200)
 	bsRoot := &Spec{Dirs: [][]string{{"d"}, {"d"}, {}}, BsRoot: true,
-		Imps: [][]Imp{{{1, 2, "", nil, 0}, {2, 3, "", nil, 0}}, {{0, 0, "", nil, 0}, {2, 0, "", nil, 0}}, {{0, 2, "", nil, 0}}}}
-	r.allSchedules(bsRoot, 200)
+		Imps: [][]Imp{{{1, 2, "", nil, 0, ""}, {2, 3, "", nil, 0, ""}}, {{0, 0, "", nil, 0, ""}, {2, 0, "", nil, 0, ""}}, {{0, 2, "", nil, 0, ""}}}}
+	all(bsRoot, 200)
 	// untidy import sections: every kind of layout line before the first and between import lines, every suffix
 	untidy := &Spec{Dirs: [][]string{{}, {}, {}, {}, {}}, CRLF: []bool{false, true, false, false, false}, Tail: [][]int{{4}, {1}, nil, nil, nil},
-		Imps: [][]Imp{{{1, 0, "", []int{1}, 1}, {2, 0, "", []int{4}, 2}, {3, 1, "", []int{0, 2}, 3}},
-			{{4, 0, "", []int{3}, 4}, {3, 0, "", []int{5, 1}, 0}}, {{4, 2, "", []int{2}, 1}, {0, 0, "", []int{4, 4}, 0}}, {{4, 0, "", []int{0}, 0}}, nil}}
-	r.allSchedules(untidy, 40)
+		Imps: [][]Imp{{{1, 0, "", []int{1}, 1, ""}, {2, 0, "", []int{4}, 2, ""}, {3, 1, "", []int{0, 2}, 3, ""}},
+			{{4, 0, "", []int{3}, 4, ""}, {3, 0, "", []int{5, 1}, 0, ""}}, {{4, 2, "", []int{2}, 1, ""}, {0, 0, "", []int{4, 4}, 0, ""}}, {{4, 0, "", []int{0}, 0, ""}}, nil}}
+	all(untidy, 40)
 	// an import statement with a TAB after the keyword (fixes/C05-1; without it the oracle reports import-tab-separator)
-	tabSep := &Spec{Dirs: [][]string{{}, {}, {}}, Imps: [][]Imp{{{1, 0, "", nil, 5}, {2, 0, "", nil, 0}}, nil, nil}}
-	r.allSchedules(tabSep, 10)
+	tabSep := &Spec{Dirs: [][]string{{}, {}, {}}, Imps: [][]Imp{{{1, 0, "", nil, 5, ""}, {2, 0, "", nil, 0, ""}}, nil, nil}}
+	all(tabSep, 10)
 	for v := 0; v < 8; v++ {
-		d := genDiamond(c.Rng, v)
-		r.allSchedules(d, 8)
-		r.schedules(d, 2)
+		v := v
+		add(func(r *runner) {
+			d := genDiamond(r.c.Rng, v)
+			r.allSchedules(d, 8)
+			r.schedules(d, 2)
+		})
 	}
 	diamondCycle := &Spec{Dirs: [][]string{{}, {"d"}, {"d", "e"}, {"k"}}, Max: 0,
-		Imps: [][]Imp{{{1, 0, "", nil, 0}, {2, 2, "", nil, 0}, {0, 0, "", nil, 0}}, {{3, 1, "", nil, 0}, {1, 4, "", nil, 0}}, {{3, 3, "", nil, 0}, {0, 2, "", nil, 0}}, {{1, 5, "", nil, 0}, {3, 0, "", nil, 0}}}}
-	r.allSchedules(diamondCycle, 200)
+		Imps: [][]Imp{{{1, 0, "", nil, 0, ""}, {2, 2, "", nil, 0, ""}, {0, 0, "", nil, 0, ""}}, {{3, 1, "", nil, 0, ""}, {1, 4, "", nil, 0, ""}}, {{3, 3, "", nil, 0, ""}, {0, 2, "", nil, 0, ""}}, {{1, 5, "", nil, 0, ""}, {3, 0, "", nil, 0, ""}}}}
+	all(diamondCycle, 200)
+
+	// the same import text with two meanings (two directories; a local and a remote file; a local directory that
+	// looks like a repository; dot names), the root under another spelling: every completion order
+	for v := 0; v < nSameText; v++ {
+		st := genSameText(v)
+		all(st, 60)
+		if v < 3 {
+			lim := *st
+			lim.Max = 2 + v%2
+			all(&lim, 30)
+		}
+	}
 
 	nRand, nUnequal, nLayered, nSched, maxN := 60, 20, 20, 3, 8
+	nNamed, nHist, nTagged := 40, 40, 30
 	if c.Thorough() {
 		nRand, nUnequal, nLayered, nSched, maxN = 900, 300, 300, 5, 10
+		nNamed, nHist, nTagged = 600, 500, 400
 	}
 	if c.Search {
 		nRand, nUnequal, nLayered, nSched = nRand*4, nUnequal*3, nLayered*3, nSched+3
+		nNamed, nHist, nTagged = nNamed*3, nHist*3, nTagged*3
+	}
+	// versions and app names: consistent and conflicting imports of one file, every completion order
+	for v := 0; v < nConflictCorpus; v++ {
+		all(genConflictCorpus(v), 40)
+	}
+	for i := 0; i < nTagged; i++ {
+		add(func(r *runner) {
+			s := genTagged(r.c.Rng)
+			if s.n() <= 5 && r.c.Rng.Chance(1, 2) {
+				r.allSchedules(s, 40)
+			} else {
+				r.schedules(s, 2)
+			}
+		})
+	}
+	// histories on one parser value
+	for i := 0; i < nHist; i++ {
+		i := i
+		add(func(r *runner) {
+			steps, label := genHistory(r.c.Rng, i)
+			r.history(steps, label)
+		})
+	}
+	// names: random digraphs over directories with dots, url-like local paths, shared base names, ten spellings
+	for i := 0; i < nNamed; i++ {
+		add(func(r *runner) {
+			s := genNamed(r.c.Rng, 7)
+			if s.n() <= 4 && r.c.Rng.Chance(1, 3) {
+				r.allSchedules(s, 60)
+			} else {
+				r.schedules(s, 2)
+			}
+		})
 	}
 	// 1. bounded-exhaustive: every digraph over 2 (quick) / 3 (thorough) files, both textual orders,
 	//    every schedule, limits 0..n
@@ -1541,39 +1949,54 @@ Local Open Scope N_scope.`
 		exN = 3
 	}
 	for mask := uint64(0); mask < 1<<uint(exN*exN); mask++ {
-		for _, desc := range []bool{false, true} {
-			for max := 0; max <= exN; max++ {
-				if desc && max > 0 && max < exN {
-					continue
+		mask := mask
+		add(func(r *runner) {
+			r.plain = true
+			for _, desc := range []bool{false, true} {
+				for max := 0; max <= exN; max++ {
+					if desc && max > 0 && max < exN {
+						continue
+					}
+					r.allSchedules(genMask(exN, mask, desc, max), 64)
 				}
-				r.allSchedules(genMask(exN, mask, desc, max), 64)
 			}
-		}
+		})
 	}
 	c.Res.Extra["exhaustive_digraphs_files"] = exN
 	// 2. random digraphs with cycles, self-imports, repeated imports, directories, spellings
 	for i := 0; i < nRand; i++ {
-		s := genRandom(c.Rng, maxN)
-		if s.n() <= 4 && c.Rng.Chance(1, 3) {
-			r.allSchedules(s, 120)
-		} else {
-			r.schedules(s, nSched)
-		}
-		if i < 3 {
-			c.Sample(map[string]interface{}{"max_import_depth": s.Max, "files": mkReplay(s, "", nil, nil, 0).Files})
-		}
+		i := i
+		add(func(r *runner) {
+			s := genRandom(r.c.Rng, maxN)
+			if s.n() <= 4 && r.c.Rng.Chance(1, 3) {
+				r.allSchedules(s, 120)
+			} else {
+				r.schedules(s, nSched)
+			}
+			if i < 3 {
+				r.c.Sample(map[string]interface{}{"max_import_depth": s.Max, "files": mkReplay(s, "", nil, nil, 0).Files})
+			}
+		})
 	}
 	// 3. unequal-length paths under a limit (Appendix B), and the same graphs without limit
 	for i := 0; i < nUnequal; i++ {
-		s := genUnequal(c.Rng)
-		if s.n() <= 7 && c.Rng.Chance(1, 4) {
-			r.allSchedules(s, 150)
-		} else {
-			r.schedules(s, nSched)
-		}
+		add(func(r *runner) {
+			s := genUnequal(r.c.Rng)
+			if s.n() <= 7 && r.c.Rng.Chance(1, 4) {
+				r.allSchedules(s, 150)
+			} else {
+				r.schedules(s, nSched)
+			}
+		})
 	}
 	// 4. trees / layered DAGs with a limit: exactly the files nearer than the limit
 	for i := 0; i < nLayered; i++ {
-		r.schedules(genLayered(c.Rng), nSched)
+		add(func(r *runner) { r.schedules(genLayered(r.c.Rng), nSched) })
 	}
+	par := 8
+	if runtime.NumCPU() < par {
+		par = runtime.NumCPU()
+	}
+	runAll(c, cases, tasks, par)
+	c.Res.Extra["parallel_workers"] = par
 }
